@@ -2,17 +2,70 @@
 
 package watch
 
-import "github.com/fsnotify/fsnotify"
+import (
+	"reflect"
+	"sort"
+	"unsafe"
 
-// VerifDetach shuts the real fsnotify watcher down (and waits until its reader goroutine has
-// closed its channels), then installs harness-owned channels: from here on the harness plays the
-// role of the kernel + fsnotify, and no real-time goroutine touches the watcher any more.
+	"github.com/fsnotify/fsnotify"
+
+	"github.com/taskctl/taskctl/pkg/task"
+)
+
+// The harness reads a Watcher's private state by TYPE, not by field name: the observed paths are its
+// only []string field, the subscribed events its only map[string]bool, the task its only *task.Task and
+// the fsnotify watcher its only *fsnotify.Watcher. Renaming or reordering the fields does not matter.
+func verifField(w *Watcher, t reflect.Type) reflect.Value {
+	v := reflect.ValueOf(w).Elem()
+	var found reflect.Value
+	n := 0
+	for i := 0; i < v.NumField(); i++ {
+		if v.Field(i).Type() == t {
+			f := v.Field(i)
+			found = reflect.NewAt(f.Type(), unsafe.Pointer(f.UnsafeAddr())).Elem()
+			n++
+		}
+	}
+	if n != 1 {
+		panic("verif seam: Watcher has " + string(rune('0'+n)) + " fields of type " + t.String() + ", expected exactly one")
+	}
+	return found
+}
+
+func verifFsw(w *Watcher) *fsnotify.Watcher {
+	return verifField(w, reflect.TypeOf((*fsnotify.Watcher)(nil))).Interface().(*fsnotify.Watcher)
+}
+
+func VerifDump(w *Watcher) (paths []string, events []string, taskName string) {
+	paths = append(paths, verifField(w, reflect.TypeOf([]string(nil))).Interface().([]string)...)
+	for e, on := range verifField(w, reflect.TypeOf(map[string]bool(nil))).Interface().(map[string]bool) {
+		if on {
+			events = append(events, e)
+		}
+	}
+	sort.Strings(events)
+	if t := verifField(w, reflect.TypeOf((*task.Task)(nil))).Interface().(*task.Task); t != nil {
+		taskName = t.Name
+	}
+	return
+}
+
+func VerifClose(w *Watcher) {
+	if w != nil {
+		if f := verifFsw(w); f != nil {
+			f.Close()
+		}
+	}
+}
+
+// VerifDetach shuts the real fsnotify watcher down and replaces its channels by harness-owned ones.
 func VerifDetach(w *Watcher, events chan fsnotify.Event, errors chan error) {
-	w.fsw.Close()
-	for range w.fsw.Events {
+	f := verifFsw(w)
+	f.Close()
+	for range f.Events {
 	}
-	for range w.fsw.Errors {
+	for range f.Errors {
 	}
-	w.fsw.Events = events
-	w.fsw.Errors = errors
+	f.Events = events
+	f.Errors = errors
 }
